@@ -39,4 +39,5 @@ func main() {
 	genPrintProg(info)
 	genGlobals()
 	genSkeleton()
+	genListLoop()
 }
